@@ -153,3 +153,7 @@ unsafe impl<S: BuildHasher + Clone + 'static + Send> Send for PolicyProcessor<S>
 unsafe impl<S: BuildHasher + Clone + 'static + Send + Sync> Sync for PolicyProcessor<S> {}
 
 impl_policy!(AsyncLFUPolicy);
+
+#[cfg(all(transparencies_stretto_verif, any(kani, test)))]
+#[path = "/verif/harness/h_policy_async.rs"]
+mod verif_harness;
